@@ -311,7 +311,7 @@ func c09() *core.Check {
 	ch := &core.Check{
 		ID: "C09",
 		Rule: "scaling experiment per input family (a hand-written catalogue of every construct repeated / nested / left unterminated, behind 4 SQL prefixes, each detector also on the other's constructs, and every family again with its one-character names / bodies / numbers grown to 8 and 40 characters; thorough: plus prefix.(a.b)^n for every ordered pair of atoms and six prefixes): thread CPU time (min of k calls) at n, 4n, 16n bytes. " +
-			"Violation = growth over the 16x range >= 64 (exponent >= 1.5; linear code measures 13-24, the quadratic scanners 139-360) with t(16n) >= 5 ms, or more than 2 us per input byte, reproduced twice alone in a fresh process with k=7; growth <= 40 is held; in between is inconclusive. Non-trivial = families with a completed three-point measurement; distinct by family.",
+			"Violation = growth over the 16x range >= 64 (exponent >= 1.5; linear code measures 13-24, the quadratic scanners 139-360) with t(16n) >= 5 ms, or more than 2 us per input byte, reproduced twice alone in a fresh process with k=7; growth <= 40 is held; in between the family is measured again alone after the parallel phase, and is inconclusive only if it stays in between. Non-trivial = families with a completed three-point measurement; distinct by family.",
 		Assumptions: []string{
 			"thread CPU time of a goroutine locked to its OS thread, minimum of k calls (GC stays enabled at GOGC=400: its assist cost is proportional to allocation, hence to input length)",
 			"thresholds calibrated on this sandbox: linear families 13-24, quadratic 139-360 over 16x, also under CPU over-subscription",
@@ -376,6 +376,7 @@ func c09() *core.Check {
 		}
 		var mu sync.Mutex
 		var all []res
+		var grey []res
 		var next atomic.Int64
 		var wg sync.WaitGroup
 		total := len(fams) + pairs
@@ -428,14 +429,41 @@ func c09() *core.Check {
 						w.SetCur(c)
 						w.Violate("superlinear", fmt.Sprintf("screening (parallel): detector %s family prefix=%q unit=%q suffix=%q: %s", fm.det, fm.f.prefix, fm.f.unit, fm.f.suffix, m))
 					case 1:
-						w.Count("grey_zone", 1)
-						r.Inconclusive(fmt.Sprintf("family %s prefix=%q unit=%q: growth %.1f lies between the held (40) and violation (64) thresholds", fm.det, fm.f.prefix, fm.f.unit, m.ratio))
+						// measured while 15 other workers were measuring: decide after the
+						// parallel phase, alone
+						mu.Lock()
+						grey = append(grey, res{fm, m, base})
+						mu.Unlock()
 					}
 				}
 				r.Merge(w)
 			}(wi)
 		}
 		wg.Wait()
+		// grey-zone families again, one at a time on an otherwise idle process
+		if len(grey) > 0 {
+			func() {
+				runtime.LockOSThread()
+				defer runtime.UnlockOSThread()
+				gw := r.NewWorkerBare()
+				for _, g := range grey {
+					gw.Count("grey_zone_in_parallel_phase", 1)
+					m := measureFamily(g.fm.det, g.fm.f, g.n, 5)
+					switch m.verdict() {
+					case 0:
+						gw.Count("grey_zone_resolved_held_when_measured_alone", 1)
+					case 2:
+						c := c09Case(g.fm, g.n)
+						gw.SetCur(c)
+						gw.Violate("superlinear", fmt.Sprintf("measured alone after a grey-zone result in the parallel phase: detector %s family prefix=%q unit=%q suffix=%q: %s", g.fm.det, g.fm.f.prefix, g.fm.f.unit, g.fm.f.suffix, m))
+					default:
+						gw.Count("grey_zone", 1)
+						r.Inconclusive(fmt.Sprintf("family %s prefix=%q unit=%q: growth %.1f (parallel phase) / %.1f (alone) lies between the held (40) and violation (64) thresholds", g.fm.det, g.fm.f.prefix, g.fm.f.unit, g.m.ratio, m.ratio))
+					}
+				}
+				r.Merge(gw)
+			}()
+		}
 		// observation summary
 		var ratios []float64
 		slowest := 0.0
